@@ -729,3 +729,21 @@ M("c14-flipped-proxy-whole-array", ["C14"], "amaranth/lib/wiring.py",
   '            return flipped(getattr(self.__unflipped, name))', "R-14f")
 M("c14-flipped-array-skips-inner-dimensions", ["C14"], "amaranth/lib/wiring.py",
   '    return [_flipped_array(item, rest_of_dimensions) for item in value]', '    return [flipped(item) for item in value]', "R-14f")
+
+# ------------------------------------------------------------------------------------------------ rules added after round 4
+M("c07-enum-value-unmasked", ["C07", "C04"], RTLIL,
+  'attrs["enum_value_" + to_binary(var_val & ((1 << len(signal)) - 1), len(signal))] = var_name',
+  'attrs["enum_value_" + to_binary(var_val, len(signal))] = var_name', "R-07h")
+M("c07-iobuffer-any-const-enable", ["C07", "C18"], RTLIL,
+  'cell.oe == _nir.Net.from_const(1)', 'cell.oe.is_const', "R-07h", count=1)
+M("c03-reset-inserter-whole-signal-from-bit0", ["C03"], XFRM,
+  '            if start == 0 and stop is None:\n                stmts.append(signal.eq(Const(signal.init, signal.shape())))',
+  '            if start == 0:\n                stmts.append(signal.eq(Const(signal.init, signal.shape())))', "R-03i")
+M("c14-compliance-checks-first-element-only", ["C14"], "amaranth/lib/wiring.py",
+  '                    result = False\n                    if reasons is None:\n                        break # short cicruit if detailed error message isn\'t required\n            return result',
+  '                    result = False\n                if reasons is None:\n                    break # short cicruit if detailed error message isn\'t required\n            return result', "R-14i")
+M("c15-from-bits-by-pattern", ["C15"], "amaranth/lib/enum.py",
+  'return cls(Const(bits, cls.as_shape()).value)', 'return cls(bits)', "R-15d")
+M("c15-view-signed-castable-not-reinterpreted", ["C15"], "amaranth/lib/data.py",
+  '            if Shape.cast(shape).signed:\n                # The slice is unsigned; a shape-castable with a signed underlying shape (e.g.\n                # an enumeration with negative members) expects a value of that shape.\n                value = value.as_signed()\n            value = shape(value)',
+  '            value = shape(value)', "R-15a")
